@@ -303,7 +303,11 @@ class _ReturnInliner(ast.NodeTransformer):
     def visit_Call(self, node):
         self.generic_visit(node)
         is_selfcall = isinstance(node.func, ast.Attribute) and dotted(node.func.value) in ("self", "cls")
-        is_modfunc = isinstance(node.func, ast.Name) and self.func is not None and node.func.id in self.func.module.functions
+        is_modfunc = isinstance(node.func, ast.Name) and self.func is not None and (
+            node.func.id in self.func.module.functions or node.func.id in self.func.module.imports)
+        if not is_modfunc and isinstance(node.func, ast.Attribute) and isinstance(node.func.value, ast.Name) and self.func is not None \
+                and node.func.value.id in self.func.module.imports:
+            is_modfunc = True  # helper of another module of the package: util.helper(x)
         if self.depth > 2 or not (is_selfcall or is_modfunc):
             return node
         try:
@@ -313,6 +317,8 @@ class _ReturnInliner(ast.NodeTransformer):
         if t is None or t.kind != "repo" or len(t.funcs) != 1:
             return node
         g = t.funcs[0]
+        if g is None or (is_modfunc and g.cls is not None):
+            return node
         body = [st for st in g.node.body if not (isinstance(st, ast.Expr) and isinstance(st.value, ast.Constant))]
         if not body or not isinstance(body[-1], ast.Return) or body[-1].value is None:
             return node
